@@ -5,7 +5,7 @@ ls -d /verif/refactors/*/ | sort > /tmp/rf_dirs.$$
 rm -f /tmp/rf_shard.$$.*
 for i in $(seq 0 $((N-1))); do
   awk -v n=$N -v i=$i 'NR%n==i' /tmp/rf_dirs.$$ > /tmp/rf_list.$$.$i
-  ( /verif/tools/run_refactors.sh $(cat /tmp/rf_list.$$.$i) > /tmp/rf_shard.$$.$i 2>&1 ) &
+  ( VERIFCHECK=${VERIFCHECK:-/verif/bin/verifcheck} /verif/tools/run_refactors.sh $(cat /tmp/rf_list.$$.$i) > /tmp/rf_shard.$$.$i 2>&1 ) &
 done
 wait
 cat /tmp/rf_shard.$$.* | grep -v "^$" > $OUT
